@@ -33,6 +33,7 @@ type Verdict struct {
 	Crash       string `json:"crash,omitempty"`
 
 	WF        []string `json:"wf,omitempty"`
+	Contract  []string `json:"contract,omitempty"`
 	Features  []string `json:"features,omitempty"`
 	NonTriv   bool     `json:"nontrivial"`
 	Tie       bool     `json:"tie,omitempty"`
@@ -43,14 +44,14 @@ type Verdict struct {
 }
 
 func (v *Verdict) Bad() bool {
-	return v.PromVsSpec != "" || v.EngVsModel != "" || v.EngVsProm != "" || v.Other != "" || v.Crash != "" || len(v.WF) > 0
+	return v.PromVsSpec != "" || v.EngVsModel != "" || v.EngVsProm != "" || v.Other != "" || v.Crash != "" || len(v.WF) > 0 || len(v.Contract) > 0
 }
 
 func features(sexpr string) []string {
 	set := map[string]bool{}
 	for _, tok := range strings.FieldsFunc(sexpr, func(r rune) bool { return r == '(' || r == ')' || r == ' ' }) {
 		switch tok {
-		case "num", "vsel", "msel", "agg", "bin", "neg", "pos", "paren", "si", "call", "fsel", "subq", "str":
+		case "num", "vsel", "msel", "agg", "bin", "neg", "pos", "paren", "si", "call", "fsel", "subq", "str", "vv", "vs", "sv", "ss":
 			set[tok] = true
 		}
 		if strings.HasPrefix(tok, "s:") && len(tok) > 2 {
@@ -96,7 +97,9 @@ func diffCase(c *Case, lean *LeanDriver) Verdict {
 	}
 	ctx, cancel := context.WithTimeout(context.Background(), 60*time.Second)
 	defer cancel()
+	drainContract()
 	eng := c.Exec(ctx, NewThanos(c, EngOpts{DisableFallback: true}), NewMemStorage(c.Data()))
+	v.Contract = drainContract()
 	if eng.Kind == "err" && strings.HasPrefix(eng.Err, "create: ") {
 		cls := ErrClass(eng.Err)
 		if cls == "unsupported" {
